@@ -636,9 +636,13 @@ impl TableNamespace {
 
     fn set_dirty(&mut self, transaction: &WriteTransaction) {
         transaction.dirty.store(true, Ordering::Release);
+        #[cfg(redb_verif)]
+        crate::verif::pause("set_dirty.after_store");
         if !transaction.transaction_tracker.any_savepoint_exists() {
             // No savepoints exist, and we don't allow savepoints to be created in a dirty transaction
             // so we can disable allocation tracking now
+            #[cfg(redb_verif)]
+            crate::verif::pause("set_dirty.before_disable");
             self.allocated_pages.disable();
         }
     }
@@ -1289,6 +1293,8 @@ impl WriteTransaction {
             }
             self.allocate_savepoint()?
         };
+        #[cfg(redb_verif)]
+        crate::verif::pause("ephemeral_savepoint.after_alloc");
         #[cfg(feature = "logging")]
         debug!("Creating savepoint id={id:?}, txn_id={transaction_id:?}");
 
@@ -1961,6 +1967,8 @@ impl WriteTransaction {
             .lock()
             .unwrap()
             .apply_on_abort(&self.transaction_tracker);
+        #[cfg(redb_verif)]
+        crate::verif::pause("abort.after_tracker_revert");
         self.mem.check_io_errors()?;
         self.page_allocator().rollback_all();
         #[cfg(feature = "logging")]
@@ -1979,15 +1987,21 @@ impl WriteTransaction {
             self.store_data_freed_pages_for(transaction_id, pages)?;
         }
 
+        #[cfg(redb_verif)]
+        crate::verif::pause("commit.durable.before_horizon");
         let free_until_transaction = self
             .transaction_tracker
             .oldest_live_read_transaction()
             .map_or(self.transaction_id, |x| x.next());
+        #[cfg(redb_verif)]
+        crate::verif::pause("commit.durable.after_horizon");
         self.process_freed_pages(free_until_transaction)?;
         // Flush allocated pages (including previously unpersisted allocations that are now
         // becoming durable) AFTER process_freed_pages, so that any pages reclaimed here have
         // already been dropped from the in-memory `unpersisted_allocations` map.
         let savepoint_horizon = self.flush_data_allocated_pages(allocated_pages)?;
+        #[cfg(redb_verif)]
+        crate::verif::pause("commit.durable.after_purge");
 
         let mut system_tables = self.system_tables.lock().unwrap();
         let system_freed_pages = system_tables.system_freed_pages();
@@ -2040,6 +2054,8 @@ impl WriteTransaction {
         };
 
         let page_allocator = self.page_allocator();
+        #[cfg(redb_verif)]
+        crate::verif::pause("commit.durable.before_publish");
         self.mem.commit(
             user_root,
             system_root,
@@ -2047,6 +2063,8 @@ impl WriteTransaction {
             self.two_phase_commit,
             self.shrink_policy,
         )?;
+        #[cfg(redb_verif)]
+        crate::verif::pause("commit.durable.after_publish");
         // All of this transaction's allocations are durable; discard the per-txn tracker.
         let _ = page_allocator.take_allocated_since_commit();
 
@@ -2062,6 +2080,8 @@ impl WriteTransaction {
         drop(system_tables);
 
         self.apply_savepoint_state_on_commit();
+        #[cfg(redb_verif)]
+        crate::verif::pause("commit.durable.before_epilogue");
 
         if self.post_commit_free == PostCommitFree::Enabled {
             self.process_data_freed_pages_after_commit(
@@ -2095,6 +2115,8 @@ impl WriteTransaction {
         if savepoint_horizon != u64::MAX {
             free_until = free_until.min(TransactionId::new(savepoint_horizon).next());
         }
+        #[cfg(redb_verif)]
+        crate::verif::pause("epilogue.after_horizon");
 
         let mut freed_any = false;
         let (system_root, stored_system_freed_pages, extracted_data_transactions) = {
@@ -2133,12 +2155,16 @@ impl WriteTransaction {
         let epilogue_allocations = page_allocator.take_allocated_since_commit();
         self.mem
             .record_post_commit_allocations(epilogue_allocations.iter().copied());
+        #[cfg(redb_verif)]
+        crate::verif::pause("epilogue.before_publish");
         self.mem.non_durable_commit(
             user_root,
             system_root,
             epilogue_transaction,
             epilogue_allocations,
         )?;
+        #[cfg(redb_verif)]
+        crate::verif::pause("epilogue.after_publish");
         self.transaction_tracker
             .reserve_transaction_id(epilogue_transaction, self.transaction_id);
         self.transaction_tracker.register_non_durable_commit(
@@ -2167,6 +2193,8 @@ impl WriteTransaction {
             .transaction_tracker
             .oldest_live_read_nondurable_transaction()
             .map_or(self.transaction_id, |x| x.next());
+        #[cfg(redb_verif)]
+        crate::verif::pause("commit.nondurable.after_horizon");
         self.process_freed_pages_nondurable(free_until_transaction)?;
 
         let mut post_commit_frees = vec![];
@@ -2199,12 +2227,16 @@ impl WriteTransaction {
         };
 
         let newly_unpersisted = self.page_allocator().take_allocated_since_commit();
+        #[cfg(redb_verif)]
+        crate::verif::pause("commit.nondurable.before_publish");
         self.mem.non_durable_commit(
             user_root,
             system_root,
             self.transaction_id,
             newly_unpersisted,
         )?;
+        #[cfg(redb_verif)]
+        crate::verif::pause("commit.nondurable.after_publish");
         // Record the data-tree pages allocated in this transaction in the in-memory map.
         self.mem
             .record_unpersisted_allocations(self.transaction_id, allocated_pages);
@@ -2217,6 +2249,8 @@ impl WriteTransaction {
             stored_freed_pages,
         );
 
+        #[cfg(redb_verif)]
+        crate::verif::pause("commit.nondurable.before_post_frees");
         for page in post_commit_frees {
             let removed = self.mem.free_if_unpersisted(page, &PageTracker::ignore());
             assert!(removed);
@@ -2611,6 +2645,8 @@ impl WriteTransaction {
 
 impl Drop for WriteTransaction {
     fn drop(&mut self) {
+        #[cfg(redb_verif)]
+        crate::verif::pause("wtx.drop");
         if !self.completed && !crate::panicking() && !self.mem.storage_failure() {
             #[allow(unused_variables)]
             if let Err(error) = self.abort_inner() {
